@@ -189,13 +189,14 @@ impl ParseContext {
     }
 
     pub fn as_parse_result(&self) -> ParseResult {
-        let all = self.segments.borrow();
-        let segments = all
+        let segments = self
+            .segments
+            .borrow()
             .iter()
-            .enumerate()
-            // an empty segment with an .org sets the location counter for what follows in its memory
-            .filter(|(i, x)| !x.borrow().is_empty() || sets_origin_for_later(&x.borrow(), &all, *i))
-            .map(|(_, x)| x.borrow().clone())
+            // an empty segment with an .org sets the location counter for what follows in its memory, which may be
+            // the body of a macro that is not expanded yet
+            .filter(|x| !x.borrow().is_empty() || x.borrow().address != 0)
+            .map(|x| x.borrow().clone())
             .collect();
         let macroses = self.macros.macroses.borrow().clone();
         let messages = self.messages.borrow().clone();
@@ -206,21 +207,6 @@ impl ParseContext {
             messages,
         }
     }
-}
-
-/// Whether the empty segment, which stands at `index`, carries an `.org` that a later segment of the same memory goes
-/// on from
-pub(crate) fn sets_origin_for_later(
-    segment: &Segment,
-    segments: &Vec<Rc<RefCell<Segment>>>,
-    index: usize,
-) -> bool {
-    segment.address != 0
-        && segments
-            .iter()
-            .skip(index)
-            .skip(1)
-            .any(|later| later.borrow().t == segment.t)
 }
 
 pub fn parse_str(input: &str, common_context: &CommonContext) -> Result<ParseResult, Error> {
